@@ -54,4 +54,12 @@ let () =
   (* c04all: the premises of C04_prints_admitted_all — parses, accepted, closed, one provider name per
      declaration (drop and split allowed) *)
   register "c04all" (fun txt -> if c04_all_text (explode txt) then "ALL-OK" else "ALL-NO");
+  (* c04all2: the premises of C04_prints_admitted_all2 — parses, accepted, closed, ONE OR TWO provider names per
+     declaration: every run in the two polarized modes is a run of Sax.v from spec/SaxInit2.sax_init2 *)
+  register "c04all2" (fun txt -> if c04_all2_text (explode txt) then "ALL2-OK" else "ALL2-NO");
+  (* c04npplain / c04npfwd: the premises of C04_prints_admitted_np_plain / _np_fwd — parses, accepted, closed,
+     plain_src_b (no forward, drop, split) / fwf_src_b (no drop, split; forwards allowed) on the SOURCE, one provider
+     name per process: every run in ALL THREE modes, the non-polarized one included, is a run of Sax.v *)
+  register "c04npplain" (fun txt -> if c04_np_plain_text (explode txt) then "NPPLAIN-OK" else "NPPLAIN-NO");
+  register "c04npfwd" (fun txt -> if c04_np_fwd_text (explode txt) then "NPFWD-OK" else "NPFWD-NO");
   List.iter (fun seed -> register (Printf.sprintf "saxcheck-%d" seed) (do_check seed)) [0; 1; 2; 3]
